@@ -10,6 +10,7 @@ EXPLANATION = (
     "add_data precedes apply_preferred_units in the decoder and neither writes raw_value or id. HASH-DEPS is decided by interpreting NMEA2000Message.add_data over abstract values with hashlib recorded: with mapping off the hash stays None; with it on the digest input is exactly the id followed, for the key fields in field order (including one whose raw value is absent), by a constant non-numeric separator and str(raw value) -- any spelling (concatenation, join, piecewise update). UNDECIDED: injectivity of the "
     "'_'-joined string and of MD5."
     ' Fifth round: [HASH-DEPS history] add_data interpreted on one module state for five concrete messages in a row (another definition with the same PGN and key values must hash differently, a non-key change must not change the hash, a key change must, a repeat gives the same hash): state the module keeps between calls is part of the run. [HASH-ORDER] the order of add_data and apply_preferred_units is a violation only when the conversion writes raw_value / id / part_of_primary_key (otherwise either order gives the same hash).'
+    ' Eighth round: [HASH-DEPS] hash-computed-over-all-decoded-fields -- under every option world add_data is called while the message still holds exactly the fields the generated decoder returned (absent key fields included).'
 )
 ASSUMPTIONS = ["CPython ast parser", "canboat.json is the oracle", "hashlib.md5 is deterministic across processes",
                "dataclass positional binding follows annotated-field order of message.py"]
